@@ -254,3 +254,12 @@ package fstree
 //@ func (*prefixedReadSeekCloser).Seek
 //@   property C11
 //@   ensures [skip_inside_the_prefix_does_not_depend_on_the_rest] 0 <= offset && offset <= int64(prefixLeft()) ==> err == nil
+
+// ---- C12 (generic writer): whatever goes wrong while the temporary copy is written, only
+// the temporary file is removed - the object's final path may hold an earlier, complete copy
+// of the same object whose Put had reported success.
+//@ callrule c12_only_the_temporary_file_is_removed in (*genericWriter).writeAndRename
+//@   property C12
+//@   callee os.RemoveAll, os.Remove
+//@   pureeffect
+//@   requires [never_the_final_path] a0 == tmpPath
